@@ -83,6 +83,11 @@ func (n *JNode) buildCond() stk.Condition {
 	return c
 }
 
+// oddStringer has a method NAMED String whose signature is not func() string
+type oddStringer struct{ s string }
+
+func (o oddStringer) String(sep string) string { return o.s + sep }
+
 // jShared: the instances built for nodes with a share number (stacks under
 // the number, Conditions under its negative); cleared per tree
 var jShared = map[int]any{}
@@ -178,7 +183,11 @@ func (n *JNode) Build() any {
 		return stk.Condition{}
 	case "other":
 		// values of Go types the package has no idea about, each time a fresh one
-		switch n.I % 4 {
+		switch n.I % 6 {
+		case 4:
+			return oddStringer{"sep"} // a method named String that is no fmt.Stringer
+		case 5:
+			return &oddStringer{"ptr"}
 		case 0:
 			return []func(...any) bool{func(...any) bool { return true }, func(...any) bool { return false }}
 		case 1:
@@ -1173,7 +1182,7 @@ func (g *jkGen) scalar() *JNode {
 	case x < 86:
 		return &JNode{T: "tnil", P: []string{"int", "str", "stack", "cond", "int2", "stack2", "str3"}[g.r.Intn(7)]}
 	case x < 89:
-		return &JNode{T: "other", I: int64(g.r.Intn(4))}
+		return &JNode{T: "other", I: int64(g.r.Intn(6))}
 	}
 	return g.operator()
 }
@@ -1297,6 +1306,7 @@ func genMarshalJunk(ctx *Ctx, emit func(any, string)) {
 		{jstr("CONDITION"), jstr("k"), eq, jstr("v")},
 		{jstr(" and "), jstr("a"), jstr("b")},
 		{jstr("and"), {T: "other", I: 0}, jstr("b")},
+		{jstr("and"), {T: "other", I: 4}, jstr("b"), jlist(jstr("CONDITION"), jstr("k"), eq, &JNode{T: "other", I: 4}), {T: "other", I: 5}},
 		{jstr("or"), jlist(jstr("CONDITION"), jstr("k"), eq, &JNode{T: "other", I: 0}), {T: "other", I: 1}, {T: "other", I: 2}, {T: "other", I: 3}},
 		{jstr("and"), jstr("cn=Jesse"), jstr("ou=People\\")},
 		{jstr("or"), jstr("\\"), jlist(jstr("list"), jstr("a\\ "), jstr("b\\"))},
@@ -1365,7 +1375,15 @@ func genMarshalJunk(ctx *Ctx, emit func(any, string)) {
 		for d := 0; d < 40; d++ {
 			env = jlist(env)
 		}
-		cat = append(cat, wide, rows, []*JNode{jstr("and"), deep}, []*JNode{env})
+		env2 := jlist(jstr("or"), jstr("b"), jlist(jstr("CONDITION"), jstr("k"), eq, jint(1)))
+		for d := 0; d < 1100; d++ {
+			env2 = jlist(env2)
+		}
+		inner := jlist(jstr("not"), jstr("c"))
+		for d := 0; d < 1050; d++ {
+			inner = jlist(inner)
+		}
+		cat = append(cat, wide, rows, []*JNode{jstr("and"), deep}, []*JNode{env}, []*JNode{env2}, []*JNode{jstr("and"), jstr("x"), inner})
 	}
 	for _, in := range cat {
 		emit(&JKInput{In: in}, "exhaustive")
